@@ -53,6 +53,7 @@ func (s *PersistentHybridIndex) compactSegments(segments []*segmentMetadata) err
 	)
 
 	// Track statistics
+	verifPoint("compact.instances", mergedIndex)
 	var totalDocs uint32
 
 	// Merge all segments into the new index
